@@ -18,6 +18,7 @@ import (
 	"go/token"
 	"go/types"
 	"os"
+	"regexp"
 	"sort"
 	"strings"
 
@@ -62,6 +63,8 @@ var (
 
 `
 
+var c16PosRe = regexp.MustCompile(`(/[^ :]+\.go:)?\d+:\d+:? ?| \(and \d+ more errors\)`)
+
 type c16Fix struct {
 	Check, Func, Name, Text string
 }
@@ -98,7 +101,8 @@ func c16Prepare(c *Ctx) (files map[string]string, entries []Entry, err error) {
 	}
 	applicability := func(format string, args ...any) {
 		msg := fmt.Sprintf(format, args...)
-		key := "applicability:" + msg
+		// the key names the check, the function and the error, not the position
+		key := "applicability:" + strings.ReplaceAll(c16PosRe.ReplaceAllString(msg, ""), " ", "_")
 		dirp := fmt.Sprintf("%s/replays/C16/%x", OutDir, hashStr(key))
 		os.MkdirAll(dirp, 0o755)
 		os.WriteFile(dirp+"/violation.json", []byte(fmt.Sprintf("{\"kind\": \"fix does not apply cleanly\", \"detail\": %q}\n", msg)), 0o644)
